@@ -3,6 +3,7 @@
    Statement discipline: each of the three obligations of a kernel is either proved for all inputs,
    or evaluated by the model on the run (theorems "..._checked"), or refuted with a witness. *)
 From Coq Require Import ZArith List Bool.
+From Flocq Require Import IEEE754.Binary.
 Import ListNotations.
 Require Import SZV.Base.FloatOps SZV.Model.Quant SZV.Model.QuantFloat SZV.Proofs.Quant_proofs SZV.Proofs.QuantFloat_proofs.
 Local Open Scope Z_scope.
@@ -21,19 +22,44 @@ Theorem C01_generic_within_bound : forall V ctx pred quant exact (ok:ctx -> V ->
 Proof. exact within_bound. Qed.
 Print Assumptions C01_generic_within_bound.
 
-(* float 1-D: the re-check makes "predicted elements are within the bound" hold on every input *)
+(* float 1-D and (after the repair) double 1-D: the re-check makes "predicted elements are within the bound" hold on every input,
+   and a predicted element never gets the code 0 (the marker of an exactly stored one) *)
 Theorem C01_float1d_recheck : forall c h p x q r, fquant1 c h p x = Some (q, r) -> f_ok c x r = true.
 Proof. exact fquant1_ok. Qed.
 Print Assumptions C01_float1d_recheck.
+Theorem C01_double1d_recheck : forall c h p x q r, dquant1 c h p x = Some (q, r) -> d_ok c x r = true.
+Proof. exact dquant1_ok. Qed.
+Print Assumptions C01_double1d_recheck.
+Theorem C01_float1d_code_nonzero : forall c h p x q r, fquant1 c h p x = Some (q, r) -> q <> 0.
+Proof. exact fquant1_nonzero. Qed.
+Print Assumptions C01_float1d_code_nonzero.
+Theorem C01_double1d_code_nonzero : forall c h p x q r, dquant1 c h p x = Some (q, r) -> q <> 0.
+Proof. exact dquant1_nonzero. Qed.
+Print Assumptions C01_double1d_code_nonzero.
 
-(* float 1-D: decoder = encoder reconstruction whenever the evaluated checks (code != 0, mirror) pass *)
+(* the decoder's pred + (code - radius) * interval reproduces the encoder's reconstruction bit for bit on every input: identical
+   expressions above the prediction; below it p - s*I against p + (-s)*I, equal by the symmetry of round-to-nearest-even under negation
+   (proved over Flocq's definitions for all p, I, s <> 0).  Left out: a NaN result, and s = 0 below the prediction (p = -0 gives -0/+0) *)
+Theorem C01_float1d_mirror : forall c h p x q r, fquant1 c h p x = Some (q, r) ->
+  Binary.is_nan 24 128 (F r) = false -> (q <> fradius c \/ fge (F x) (F p) = true) -> fdequant1 c p q = r.
+Proof. exact fquant1_mirror. Qed.
+Print Assumptions C01_float1d_mirror.
+Theorem C01_double1d_mirror : forall c h p x q r, dquant1 c h p x = Some (q, r) ->
+  Binary.is_nan 53 1024 (D r) = false -> (q <> dradius c \/ dge (D x) (D p) = true) -> ddequant1 c p q = r.
+Proof. exact dquant1_mirror. Qed.
+Print Assumptions C01_double1d_mirror.
+
+(* whole runs: decoder = encoder reconstruction whenever the evaluated mirror check passes (the code <> 0 check is static now) *)
 Theorem C01_float1d_lockstep_checked : forall c xs h,
   let '(nz, mir, _, _) := fchecks1 c h xs in
   nz = true -> mir = true -> let '(qs, es, rs) := fenc1 c h xs in fdec1 c h qs es = Some rs.
 Proof. exact f1d_lockstep. Qed.
 Print Assumptions C01_float1d_lockstep_checked.
+Theorem C01_float1d_nz_static : forall c xs h, let '(nz, _, _, _) := fchecks1 c h xs in nz = true.
+Proof. exact fchecks1_nz. Qed.
+Print Assumptions C01_float1d_nz_static.
 
-(* float 1-D: every element within the bound whenever the exactly stored values are (truncation check) *)
+(* every element within the bound whenever the exactly stored values are (truncation check) *)
 Theorem C01_float1d_bound_partial : forall c xs h,
   let '(_, _, _, ex) := fchecks1 c h xs in
   ex = true -> let '(_, _, rs) := fenc1 c h xs in Forall2 (fun x r => f_ok c x r = true) xs rs.
@@ -45,24 +71,27 @@ Theorem C01_double1d_lockstep_checked : forall c xs h,
   nz = true -> mir = true -> let '(qs, es, rs) := denc1 c h xs in ddec1 c h qs es = Some rs.
 Proof. exact d1d_lockstep. Qed.
 Print Assumptions C01_double1d_lockstep_checked.
+Theorem C01_double1d_nz_static : forall c xs h, let '(nz, _, _, _) := dchecks1 c h xs in nz = true.
+Proof. exact dchecks1_nz. Qed.
+Print Assumptions C01_double1d_nz_static.
 
-Theorem C01_double1d_bound_checked : forall c xs h,
-  let '(_, _, o, ex) := dchecks1 c h xs in
-  o = true -> ex = true -> let '(_, _, rs) := denc1 c h xs in Forall2 (fun x r => d_ok c x r = true) xs rs.
+Theorem C01_double1d_bound_partial : forall c xs h,
+  let '(_, _, _, ex) := dchecks1 c h xs in
+  ex = true -> let '(_, _, rs) := denc1 c h xs in Forall2 (fun x r => d_ok c x r = true) xs rs.
 Proof. exact d1d_bound. Qed.
-Print Assumptions C01_double1d_bound_checked.
+Print Assumptions C01_double1d_bound_partial.
 
-(* refuted: the double 1-D kernel has no re-check; pred + 2ke rounds away from the value
+(* before the repair the double 1-D kernel had no re-check; pred + 2ke rounds away from the value
    (data 0, 0, 0.5, e = 0.1: reconstruction 0.6000000000000001, error 0.10000000000000009 > 0.1) *)
 Theorem C01_double1d_no_recheck_refuted : exists e iv xs,
-  let c := dctx_of e iv xs in let '(_, _, o, _) := dchecks1 c [] xs in o = false.
+  let c := dctx_of e iv xs in let '(_, _, o, _) := dchecks1_old c [] xs in o = false.
 Proof. exists 0x3FB999999999999A, 65536, [0; 0; 0x3FE0000000000000; 0x3FF0000000000000; 0x3FF0000000000000]. vm_compute. reflexivity. Qed.
 Print Assumptions C01_double1d_no_recheck_refuted.
 
-(* refuted: at the checkRadius edge the float 1-D kernel emits code 0 ("unpredictable") for a
-   predicted element: the decoder then consumes an exact value that was never stored *)
+(* before the repair, at the checkRadius edge the float 1-D kernel emitted code 0 ("unpredictable") for a
+   predicted element: the decoder then consumed an exact value that was never stored *)
 Theorem C01_float1d_code_zero_refuted : exists e iv xs,
-  let c := fctx_of e iv xs in let '(nz, _, _, _) := fchecks1 c [] xs in nz = false.
+  let c := fctx_of e iv xs in let '(nz, _, _, _) := fchecks1_old c [] xs in nz = false.
 Proof. exists 0x3feabb9740000000, 128, [0x4639c2f4; 0x4639c2f4; 0x46381b1e; 0x4639c2f4; 0x4a371b00]. vm_compute. reflexivity. Qed.
 Print Assumptions C01_float1d_code_zero_refuted.
 
